@@ -337,3 +337,38 @@ theorem encFlush_spec {e : Enc} (h : Inv e) :
   refine ⟨by omega, by omega, by omega⟩
 
 end XzVerif.RangeCoder
+
+namespace XzVerif.RangeCoder
+open XzVerif.RangeDec XzVerif.RangeEnc
+
+/-- `out_total` counts the bytes written -/
+def OutOk (e : Enc) : Prop := e.outTotal = e.outRev.length
+
+theorem outOk_init : OutOk Enc.init := rfl
+
+theorem outOk_shiftLow {e : Enc} (h : OutOk e) (hcs : 1 ≤ e.cacheSize) : OutOk (shiftLow e) := by
+  unfold OutOk at *
+  by_cases hcond : e.low % U32 < 0xFF000000 ∨ (e.low / U32) % U32 ≠ 0
+  · rw [shiftLow_pos hcond]
+    simp only [length_pushN, List.length_cons]; omega
+  · rw [shiftLow_neg hcond]; exact h
+
+theorem outOk_normalize {e : Enc} (h : OutOk e) (hcs : 1 ≤ e.cacheSize) : OutOk (normalize e) := by
+  unfold normalize
+  split
+  · exact outOk_shiftLow h hcs
+  · exact h
+
+theorem outOk_encBit {e : Enc} (h : OutOk e) (hcs : 1 ≤ e.cacheSize) (p : Nat) (b : Bool) : OutOk (encBit e p b) := by
+  have := outOk_normalize h hcs
+  cases b
+  · rw [encBit_false]; exact this
+  · rw [encBit_true]; exact this
+
+theorem outOk_encDirect {e : Enc} (h : OutOk e) (hcs : 1 ≤ e.cacheSize) (b : Bool) : OutOk (encDirect e b) := by
+  have := outOk_normalize h hcs
+  cases b
+  · rw [encDirect_false]; exact this
+  · rw [encDirect_true]; exact this
+
+end XzVerif.RangeCoder
